@@ -45,6 +45,44 @@ func checkC16(c *Ctx) {
 		rc.Check(found, m.Name(), "stores "+pair[1]+" on the new instance", m.Body.Pos(), "stored on getInstance()'s statement", pair[0]+" does not store its arguments on the statement of the instance it returns")
 	}
 
+	// ---- C16.attrs-only-when-missing ----
+	// "return the first match unchanged, or else a record built from the conditions plus Attrs":
+	// Attrs (and the condition values) are applied only under RowsAffected == 0 of the lookup.
+	ra2 := c.Rule("C16.attrs-only-when-missing", "FirstOrInit/FirstOrCreate apply conditions and Attrs only when the lookup matched nothing", 4)
+	attrsF := p.Field(stmtT, "attrs")
+	aitv := p.Method(dbT, "assignInterfacesToValue")
+	for _, name := range []string{"FirstOrInit", "FirstOrCreate"} {
+		f := p.MethodDecl(pkgGorm, "DB", name)
+		c.Touch(f)
+		info := f.Pkg.TypesInfo
+		n := 0
+		for _, call := range callsIn(f) {
+			if fn, _ := typeutil.Callee(info, call).(*types.Func); fn != aitv || len(call.Args) != 1 {
+				continue
+			}
+			arg := unparen(call.Args[0])
+			isAttrs := fieldSel(info, arg, attrsF)
+			isConds := strings.HasSuffix(canon(info, arg), ".Exprs")
+			if !isAttrs && !isConds {
+				continue // assigns: applied in both cases
+			}
+			n++
+			facts, live := p.Guards(f, nil).At(call.Pos())
+			okf := false
+			for fc := range facts {
+				if strings.HasPrefix(fc, "T:") && strings.HasSuffix(fc, ".RowsAffected == 0") {
+					okf = true
+				}
+			}
+			what := "Attrs"
+			if isConds {
+				what = "condition values"
+			}
+			ra2.Check(live && okf, f.Name(), what+" applied only when nothing matched", call.Pos(), "under RowsAffected == 0", name+" writes "+what+" into the destination without a dominating RowsAffected == 0 test: a record that WAS found is returned modified (Attrs must only initialise a missing record)")
+		}
+		ra2.Check(n >= 2, f.Name(), "initialises a missing record", f.Body.Pos(), "conditions and Attrs are applied", name+" no longer initialises a missing record from conditions and Attrs")
+	}
+
 	// ---- C16.init-readonly ----
 	ri := c.Rule("C16.init-readonly", "REACH(FirstOrInit -> pipeline accessors) within package gorm is {Query}; query executors issue only query-type driver calls", 3)
 	cbT := p.Named(pkgGorm, "callbacks")
